@@ -69,6 +69,15 @@ def signatures(case, r):
     for lv, dbg, v in r['res']:
         k = v[0]
         sig = None
+        # the position oracle of the catalogue families: a located diagnostic
+        # has to be on the line of the offending statement
+        if case.get('errline') is not None and k in ('syntax', 'compile'):
+            loc, ok = (v[1], v[2]) if k == 'syntax' else (v[2], v[3])
+            if ok and min(case['src'].count('\n', 0, loc), case['src'].count('\n')) != case['errline'] \
+                    and not (loc == len(case['src']) and case['src'].endswith('\n')
+                             and case['src'].count('\n') - 1 == case['errline']):
+                out.append((f'C06/diagnostic-on-wrong-line({"SyntaxError" if k == "syntax" else v[1]})'
+                            f'@{form}', lv, dbg, v))
         if k == 'exc':
             phase = '' if v[4] == 'compile' else v[4] + ':'
             sig = f'C06/internal-exception({v[1]},{v[2]},{phase}{v[3]})@{form}'
@@ -89,8 +98,11 @@ def signatures(case, r):
     return out
 
 
-def run_check(srcs, full=True, fam='replay'):
+def run_check(srcs, full=True, fam='replay', warm=None):
     cases = [{'src': s, 'full': full, 'tl': TL} for s in srcs]
+    for c, w in zip(cases, warm or []):
+        if w:
+            c['warm'] = w
     res = vlib.run_impl(CHECK, cases, timeout=3600, par=PAR)
     # a dead worker loses the rest of its chunk: run those one by one
     for i, r in enumerate(res):
@@ -356,6 +368,46 @@ def build_stream(ctx, tier, corpus):
     return fams, space
 
 
+# families that are always run completely (no wall-clock budget): (name, quick
+# size of the seeded sub-sample of the non-core part; None = all)
+def build_fixed(ctx, tier):
+    """jump-only control skeletons, constants at the type boundaries, repeated
+    statements with different indentation.  The core part of each family is
+    bounded-exhaustive and the same in both tiers and for every seed; the
+    rest is the full enumeration (thorough) or a ctx.rng sub-sample (quick)."""
+    def sub(lst, q):
+        if tier != 'quick' or q >= len(lst):
+            return list(lst)
+        return [lst[i] for i in sorted(ctx.rng.sample(range(len(lst)), q))]
+    exh, mix = c06gen.jump_skeletons()
+    allctx, assign = c06gen.const_boundaries()
+    ext = ('-32768', '32767', '-2147483648', '2147483647', '-max', 'max')
+    core = [c for c in allctx if c['cls'].split('/')[0] == 'un' and c['cls'].split('/')[1] in ('-', '+', 'NOT')
+            and c['cls'].split('/')[3] in ext]
+    corekeys = set(c['cls'] for c in core)
+    rest = [c for c in allctx if c['cls'] not in corekeys]
+    ind = c06gen.indent_positions()
+    fams = [('jumps', exh + sub(mix, 120)),
+            ('constbound', core + sub(rest, 200) + sub(assign, 50)),
+            ('indent-pos', ind)]
+    ctx.extra['fixed_space'] = {'jumps': len(exh) + len(mix), 'constbound': len(allctx) + len(assign),
+                                'indent-pos': len(ind)}
+    ctx.rule.append(
+        f'fixed families (never cut by the budget; six configurations each): jumps = every map of n<=3 '
+        f'labels/line numbers to GOTO targets in 4 layouts + cycles of length 4..6 ({len(exh)}, all) and '
+        f'every assignment of GOTO/GOSUB/IF..GOTO/IF..THEN n/IF..ELSE/ON..GOTO/RETURN [label]/real statement/END '
+        f'to n<=3 nodes ({len(mix)}; quick: 120 by ctx.rng); constbound = typed constant expressions '
+        f'(literal op literal) at/next to the limits of INTEGER, LONG, SINGLE, DOUBLE under every unary operator '
+        f'(and pairs), every binary operator x boundary operand pairs, mixed types, in 8 contexts (assignment '
+        f'to SINGLE/INTEGER/LONG, DIM bound, CONST, array index, PRINT, operand of a variable '
+        f'expression) ({len(allctx)} + {len(assign)} assignment-only; quick: core {len(core)} = -,+,NOT on the '
+        f'extreme values in every context, + 200 + 50 by ctx.rng); indent-pos = {len(ind)} texts with the same '
+        f'statement twice, differently indented, accepted first and rejected at the end of the text (also with '
+        f'the accepted occurrence in a text compiled before in the same process): the diagnostic has to be '
+        f'inside the text and on the line of the rejected occurrence')
+    return fams
+
+
 def run_stream(ctx, fams, budget):
     t0 = time.time()
     truncated = {}
@@ -381,7 +433,8 @@ def run_stream(ctx, fams, budget):
             live = True
             chunk = lst[i:i + BATCH]
             pos[name] = i + len(chunk)
-            res = run_check([c['src'] for c in chunk], full=True, fam=name)
+            res = run_check([c['src'] for c in chunk], full=True, fam=name,
+                            warm=[c.get('warm') for c in chunk])
             nrun = 0
             keys = set()
             for c, r in zip(chunk, res):
@@ -396,6 +449,10 @@ def run_stream(ctx, fams, budget):
                 for sig, lv, dbg, v in signatures(c, r):
                     d = {'suite': name, 'fam': c['fam'], 'class': c['cls'], 'src': c['src'],
                          'level': lv, 'debug': dbg, 'verdict': v}
+                    if c.get('warm'):
+                        d['warm'] = c['warm']
+                    if c.get('errline') is not None:
+                        d['errline'] = c['errline']
                     st = ctx.report(sig, d, True)
                     if st == 'violation':
                         first.setdefault(sig, c)
@@ -454,7 +511,11 @@ def main(tier, seed):
     fams, space = build_stream(ctx, tier, corpus)
     budget = float(os.environ.get('C06_BUDGET', 170 if tier == 'quick' else 1100))
     replay_known(ctx)
+    fixed = build_fixed(ctx, tier)
+    _, first0 = run_stream(ctx, fixed, float('inf'))
     truncated, first = run_stream(ctx, fams, budget)
+    first = {**first, **first0}
+    ctx.extra['fixed_planned'] = {n: len(l) for n, l in fixed}
     ctx.extra['stream_space'] = space
     ctx.extra['stream_planned'] = {n: len(l) for n, l in fams}
     ctx.extra['stream_not_run_budget'] = truncated
